@@ -35,11 +35,20 @@ type chunkReader struct {
 	i           int
 	left        int // remainder of the current chunk
 	reads       int
+	limit       int // reads allowed (0 = unbounded)
 	eofWithData bool
 }
 
+// readBoundExceeded is what the reader throws when it is asked for more reads than any
+// terminating framer needs (a loop that keeps reading an exhausted stream never comes back to the
+// caller, so the bound has to be enforced here).
+type readBoundExceeded struct{}
+
 func (r *chunkReader) Read(p []byte) (int, error) {
 	r.reads++
+	if r.limit > 0 && r.reads > r.limit {
+		panic(readBoundExceeded{})
+	}
 	if len(r.data) == 0 {
 		return 0, io.EOF
 	}
@@ -81,10 +90,15 @@ type frameResult struct {
 	panic  interface{}
 }
 
-func runFramer(data []byte, sizes []int, eofWithData bool) frameResult {
+func runFramer(data []byte, sizes []int, eofWithData bool) (res frameResult) {
 	r := &chunkReader{data: append([]byte(nil), data...), sizes: sizes, eofWithData: eofWithData}
-	var res frameResult
 	limit := 4*len(data) + 64
+	r.limit = 2 * limit
+	defer func() {
+		if _, ok := res.panic.(readBoundExceeded); ok {
+			res.panic, res.hang = nil, true
+		}
+	}()
 	res.panic = catch(func() {
 		p := quickfix.VerifNewParser(r)
 		for {
